@@ -263,6 +263,21 @@ CHECKS['C18'] = (
     'plus over-precise ones for the rounding rule; documents use structures the YANG models know.',
     'DESIGN.md 3/C18')
 
+CHECKS['C20'] = (
+    'exhaustive enumeration of combinations of workbook mutators and of service-row subsets, every workbook really written as '
+    '.xlsx and also fed through an in-memory xlrd-API object, reference model of docs/excel.rst on the produced JSON graph',
+    'All combinations of <= 2 (quick) / 3 (thorough) of 20 workbook mutators (two-sided / partially two-sided link columns, zero '
+    'cells, float lengths, blank / unknown site type, ILA of degree 1 / 3, FUSED of degree 3, reversed link order, Eqpt rows on '
+    'ROADM / ILA sites one- and two-sided and towards either neighbour, fused booster, Roadms rows, restrictions, coordinates), 10 '
+    'error workbooks in 2 contexts, service sheets with every 1-2 (and part / all of the 3-) row subsets of 10 row kinds plus 5 '
+    'invalid rows on two base workbooks: sites, fibres (values, west defaulting to east), wiring, one-in/one-out, Eqpt settings on '
+    'the amplifier facing the named neighbour (checked through the graph), per-degree targets and restrictions match the sheet; '
+    'error workbooks raise NetworkTopologyError; the JSON loads and auto-designs; service rows become requests with converted '
+    'units, route, strictness and synchronisation entries; the .xlsx and xlrd-API paths give identical JSON.',
+    'The value produced for a blank Con_in/Con_out/PMD cell is not judged; the xlrd file parser itself is not exercised on '
+    'generated inputs (no .xls writer offline).',
+    'DESIGN.md 3/C20')
+
 ALL = [f'C{i:02d}' for i in range(1, 21)]
 NOT_BUILT_REASON = 'check not built yet in this round (planned, see DESIGN.md section 3); not claimed until it runs'
 
